@@ -99,7 +99,7 @@ class Renderer:
     def selector(self, sel, ws=True):
         t = sel[0]
         if t == "name":
-            if self.alias and shorthand_ok(sel[1]) and sel[1] not in RESERVED and "-" not in sel[1] and self.r.random() < 0.5 and all(ord(c) < 0x10000 for c in sel[1]):
+            if self.alias and shorthand_ok(sel[1]) and sel[1] not in RESERVED and not sel[1].startswith("_") and self.r.random() < 0.5 and all(ord(c) < 0x10000 for c in sel[1]):
                 return sel[1]  # bare name in brackets (non-standard)
             return self.string(sel[1])
         if t == "index":
@@ -170,7 +170,7 @@ class Renderer:
         body = self.segments(q[2], singular)
         if head == "":
             body = body.lstrip(" \t\n\r")
-            if body.startswith(".") and not body.startswith("..") and self.r.random() < 0.5:
+            if body.startswith(".") and not body.startswith(("..", "._")) and self.r.random() < 0.5:
                 body = body[1:]  # `thing` is the same as `.thing` and `$.thing`
         return head + body
 
@@ -189,6 +189,10 @@ class Renderer:
             return self.number(v)
         if t == "sq":
             return self.query(e[1], singular=True)
+        if t == "nsq":
+            return self.query(e[1])
+        if t == "tlit":
+            return self.comparable(["lit", e[1]])
         if t == "key":
             return self.t["key"]
         if t == "undef":
@@ -222,6 +226,8 @@ class Renderer:
             return "(" + self.S() + self.expr(e[1], 0) + self.S() + ")"
         if t == "test":
             return self.query(e[1])
+        if t == "tlit":
+            return self.comparable(["lit", e[1]])
         if t == "cmp":
             op = e[1]
             if op in ("in", "contains"):
